@@ -152,12 +152,28 @@ func TestC20_Node(t *testing.T) {
 	rapid.Check(t, func(rt *rapid.T) {
 		v := pickVariant(rt)
 		p := genPool(rt, v, "pool")
-		c := nodeCase{Variant: v.Name, Op: rapid.IntRange(0, 2).Draw(rt, "op"), Opts: uint8(rapid.SampledFrom([]int{0, 0, 0, 1, 2, 3, 4, 8, 6, 15}).Draw(rt, "opts")), Base: p.base(rt, "base")}
+		c := nodeCase{Variant: v.Name, Op: rapid.SampledFrom([]int{0, 1, 1, 2}).Draw(rt, "op"), Opts: uint8(rapid.SampledFrom([]int{0, 0, 0, 1, 2, 3, 4, 8, 6, 15}).Draw(rt, "opts")), Base: p.base(rt, "base")}
 		var classes []string
 		// either an odd path with a value aimed at a real leaf, or a valid leaf path with an odd value
 		var in *model.Inst
 		if len(p.insts) > 0 {
 			x := p.insts[rapid.IntRange(0, len(p.insts)-1).Draw(rt, "inst")]
+			if rapid.Bool().Draw(rt, "bytype") {
+				// leaves of rare value kinds (decimal64, binary, empty, ...) are a few per cent of the
+				// instances: half of the time the kind is drawn first, then an instance of it
+				by := map[string][]int{}
+				var names []string
+				for i, y := range p.insts {
+					tn := fmt.Sprint(y.F.Type.VKind())
+					if by[tn] == nil {
+						names = append(names, tn)
+					}
+					by[tn] = append(by[tn], i)
+				}
+				sort.Strings(names)
+				g := by[rapid.SampledFrom(names).Draw(rt, "insttype")]
+				x = p.insts[g[rapid.IntRange(0, len(g)-1).Draw(rt, "instoftype")]]
+			}
 			in = &x
 		}
 		structural := false
